@@ -36,6 +36,9 @@ CHECKS = {
  "C08": ("exploration", "A", "deterministic simulation: real group+dedupe processes with seam-relabelled timestamps vs executable model of the documented selection rule",
          "Seeded groups (hard-link subsets, roots, nesting, tied timestamps) x option sets given on the command line or inherited from the report header; the paths changed by the real run (seam trace) and the paths named by --dry-run must both equal the model's drop set; any panic/non-zero exit is a violation.",
          "globs restricted to literal/*/**/?; plain names; model written from the documentation", "4/C08"),
+ "C09": ("exploration", "A", "deterministic simulation: real parallel walk under main-pool sizes 1/2/16 vs executable reference walk",
+         "Seeded trees (nesting, hidden entries, ignore files, file/dir symlinks incl. dangling and cyclic, metacharacter and non-ASCII directory names) x selection options x overlapping roots; the selected set must equal the reference walk and be identical for all pool sizes.",
+         "glob forms literal/*/**/?; ignore files only in simple forms and never together with --follow-links; excluded directories excluded with their subtree; --one-fs not exercised", "4/C09"),
 }
 NOT_APPLICABLE = {
  "C16": "pure function of (glob pattern, string): no schedule, clock, fault, stream or history for a simulator to control; needs bounded-exhaustive input enumeration against a reference matcher, which is a different technique (DESIGN section 5)",
